@@ -135,3 +135,8 @@ e1prop("C04", "Decoding untrusted bytes", "C04.json",
        "point decoders are executed on byte slices of every length in the bound with arbitrary (symbolic) content: every potentially panicking instruction (index, slice bounds, nil dereference, explicit panic) is an obligation 'unreachable'; a successful decode implies the length/format checks and the membership predicate were passed with the decoded coordinates (the predicate of external libraries is a recording stub).",
        ["edwards25519vartime decodePoint: lengths {0,1,31,32,33} quick, + {2,16,64,65} thorough; P-256 UnmarshalBinary: lengths {0,1,33,64,65,66}"],
        ["BLS12-381 subgroup checks (external libraries)", "raw bit-level fuzz of the reflective protobuf decoder (reflection is outside E1)", "composite messages (signatures, proofs, ciphertexts, deals) are exercised structurally by the E2 checks of C08-C16 (truncation, replaced fields): not repeated here"])
+
+e1prop("C05", "Value semantics / aliasing", "C05.json",
+       "every aliasing pattern of receiver and operands (distinct, r=a, r=b, a=b, r=a=b) of the adapter methods is executed symbolically; the result must equal the result of the same operation on fresh copies, operands other than the receiver stay unchanged, the receiver is returned; Clone/Set copies are independent of their source under one further mutating call on either object. External libraries are uninterpreted functions with stated read/write contracts (equalities decided in QF_UF); math/big uses a shared-storage model (struct copies share limbs, methods write in place).",
+       ["programs: one operation per aliasing pattern (5 patterns x {Add, Sub}) for gnark G1 and kilic GT; Null/Base for kilic G1/G2; residuePoint: {Clone, Set} x {mutate source, mutate copy} x {Null, Add, Set} quick, + {Base, Neg, Sub} thorough"],
+       ["the external libraries themselves (contracts are trusted and listed)", "programs longer than copy + one call", "ed25519 point/scalar, vartime points, bn256/bn254 points: aliasing of the formula code is covered by the formula-layer harnesses of C01 where registered"])
